@@ -632,6 +632,7 @@ class Slicer:
                 atoms.add("param:%s" % (nm or ("arg%d" % l)))
         elif nm:
             atoms.add("local:%s" % nm)
+            atoms.add("lid:%d" % l)
         for kind, bi, si, node, projs in b.defs().get(l, []):
             if kind == "assign":
                 self._rvalue(node["rv"], atoms, seen)
